@@ -30,13 +30,14 @@ CLAIM = {
             "point are the energy-conserving mix with the arithmetic mean of c_p at stream and mixture temperature - "
             "the same mean get_branch_cp uses; T-typed feeders and circulation pumps keep their temperature under any "
             "solution of the linear system; local temperature bounds (branch: between inlet and ambient; node: convex "
-            "combination of its inflows, any number of inflows). The hand model of the thermal build_system_matrix / "
+            "combination of its inflows, any number of inflows) and global bounds (maximum principle over the flow graph: "
+            "every temperature between the coldest and warmest of feed and ambient temperatures). The hand model of the thermal build_system_matrix / "
             "corrected from-to nodes / check_infeed_number / infeed detection is tied to the code by an exact integer "
             "correspondence evaluated inside Coq; monitors evaluate the conclusions on real converged nets.",
     "note": "Theorems over R use the standard-library real axioms (ClassicalDedekindReals.sig_forall_dec, sig_not_dec, "
             "FunctionalExtensionality.functional_extensionality_dep); the assembly theorems are generic-ring and closed "
-            "under the global context. Partial: global_bounds (maximum principle over the whole graph) is not proved - "
-            "local bounds + monitor only; the transient branch of the kernels is not modelled; a converged (not exact) "
+            "under the global context. global_bounds (maximum principle) is proved for nets without heat sources in which "
+            "every node is downstream of an infeed node (graph form + pipeline form over the generated kernels); the transient branch of the kernels is not modelled; a converged (not exact) "
             "solution satisfies the laws up to tol_T - covered by monitors, not by theorems; spsolve is an oracle "
             "(theorems quantify over any solution x).",
     "technique": "Coq proof over generated kernels (T-tie) + hand-written assembly model with exact model/implementation "
